@@ -33,7 +33,7 @@ func emptiness(v interface{}) string {
 
 func c07(r *mon.Run) {
 	r.Rule = "exhaustive: every ordered pair of a 24-value universe (all JSON types, every emptiness class, one level of nesting) x the 8 binary operators, operands supplied as literals, as document fields and mixed; ! and filter conditions [?@] / [?a] over the universe; short-circuit probes (x || E, x && E for every x and every error kind E: the right operand must be evaluated exactly when needed); " +
-		"every operator tree of depth <= 2 over 6 representative operands (depth 3 sampled in thorough); seeded random nestings inside filter conditions. Oracle: ref truth table / deep equality / numeric ordering. Non-trivial = distinct (expression, document); the (operator, left type, right type, emptiness) matrix is reported."
+		"every operator tree of depth <= 2 over 6 representative operands (depth 3 sampled in thorough); deep equality over every ordered pair of a 56-value universe of small nested arrays and objects (different key sets of equal size, null members, element order, nesting), as ==, !=, inside a filter condition and through contains(); seeded random nestings inside filter conditions. Oracle: ref truth table / deep equality / numeric ordering. Non-trivial = distinct (expression, document); the (operator, left type, right type, emptiness) matrix is reported."
 	r.Exhaustive = true
 	r.Floor = 3000
 	r.Assumptions = []string{"truth definition, deep equality and ordering rules as stated in C07 (ref/value.go: Falsy, DeepEq)"}
@@ -185,7 +185,40 @@ func c07(r *mon.Run) {
 				t.Nontrivial("f:" + expr + ref.Canon(arr))
 			}
 		}}
-	ws := []mon.Workload{pairs, unary, sc, trees, rnd}
+	// deep equality over structured values: every pair of a universe of small nested arrays and objects
+	// (different key sets of equal size, null members, nesting, element order)
+	eqTexts := []string{`null`, `1`, `"a"`, `[]`, `{}`, `[null]`, `[1]`, `["a"]`, `[null,null]`, `[1,null]`, `[null,1]`, `[1,"a"]`, `["a",1]`, `[[]]`, `[[null]]`, `[{}]`, `[{"a":null}]`,
+		`{"a":null}`, `{"b":null}`, `{"a":1}`, `{"b":1}`, `{"a":"a"}`, `{"a":[]}`, `{"a":{}}`, `{"a":[null]}`, `{"a":{"b":null}}`, `{"a":{"a":null}}`, `{"a":{"b":1}}`,
+		`{"a":null,"b":null}`, `{"a":null,"c":null}`, `{"b":null,"c":null}`, `{"a":1,"b":null}`, `{"a":null,"b":1}`, `{"a":1,"b":1}`, `{"a":1,"c":1}`, `{"a":1,"b":2}`, `{"a":2,"b":1}`,
+		`{"a":[1,2]}`, `{"a":[2,1]}`, `{"a":{"b":[{"c":null}]}}`, `{"a":{"b":[{"d":null}]}}`, `{"a":{"b":[{"c":null},null]}}`, `[{"a":null},{"b":null}]`, `[{"b":null},{"a":null}]`,
+		`0`, `-0.0`, `1.0`, `"1"`, `true`, `false`, `""`, `"null"`, `[true]`, `[false]`, `{"":null}`, `{"":""}`}
+	eqVals := make([]interface{}, len(eqTexts))
+	for i, tx := range eqTexts {
+		eqVals[i] = docs.J(tx)
+	}
+	E := len(eqTexts)
+	eqw := mon.Workload{Name: "deep-equality-universe", N: E * E * 4,
+		Do: func(i int, t *mon.Tally) {
+			form := i % 4
+			k := i / 4
+			x, y := k/E, k%E
+			op := []string{"==", "!="}[form%2]
+			var tree *gen.Expr
+			var doc interface{} = map[string]interface{}{"a": eqVals[x], "b": eqVals[y], "rows": []interface{}{map[string]interface{}{"v": eqVals[x], "i": float64(0)}, map[string]interface{}{"v": eqVals[y], "i": float64(1)}}}
+			switch {
+			case form < 2:
+				tree = gen.Cmp(op, gen.LitJSON(eqTexts[x]), gen.Field("b"))
+			case form == 2:
+				tree = gen.Chain(gen.Field("rows"), gen.StFilter(gen.Cmp("==", gen.Field("v"), gen.LitJSON(eqTexts[x]))), gen.StField("i"))
+			default:
+				tree = gen.Func("contains", gen.MultiList(gen.Field("b"), gen.LitJSON(`"sentinel"`)), gen.Field("a"))
+			}
+			expr := gen.Spell(tree)
+			cx := &caseCtx{r, t, "deep-equality-universe", i}
+			cx.runOne(tree, expr, doc)
+			t.NontrivialDistinct(1)
+		}}
+	ws := []mon.Workload{pairs, unary, sc, trees, rnd, eqw}
 	if r.Tier == "thorough" {
 		d2m := gen.Materialize(gen.Union(gen.Map(d1, un...), gen.Product(reps, d1, bin...)))
 		d3 := gen.Product(d2m, d1, bin...)
